@@ -113,6 +113,9 @@ def run_shard(prop_id: str, sub_name: str, tier: str, seed: int, shard: int, nsh
     import warnings
 
     warnings.filterwarnings("ignore")
+    import logging
+
+    logging.disable(logging.CRITICAL)  # the table sampler logs an error before raising its documented ValueError
     t0 = time.time()
     mod = import_module(f"props.{prop_id.lower()}")
     sc: SubCheck = next(s for s in mod.SUBCHECKS if s.name == sub_name)
